@@ -376,59 +376,105 @@ def E1_lmpdat_writer_reader(repo, clause):
         ok = ok and upper_zero
         detail += "; upper triangle zero=%s; diagonal=%s" % (upper_zero, diag_names)
     obs.append(Ob("E1", clause, w, tilt_c if tilt_w else w.node, ok, detail, slot="tilt"))
-    # the triclinic decision examines all three tilt factors
-    if names:
-        tests = []
-        for n_ in r.own_nodes():
-            if isinstance(n_, ast.If):
-                nm_ = {x.id for x in ast.walk(n_.test) if isinstance(x, ast.Name) and x.id in names}
-                if nm_ and any(isinstance(x, ast.Compare) for x in ast.walk(n_.test)) and "xy xz yz" not in ast.unparse(n_.test):
-                    tests.append((n_, nm_))
-        if tests:
-            n_, nm_ = tests[0]
-            obs.append(Ob("E1", clause, r, n_, nm_ == set(names),
-                          "the cell is treated as tilted when ANY of the three tilt factors %s is non-zero (examined: %s)" % (names, sorted(nm_)),
-                          slot="tilt-decision", positive=nm_ < set(names)))
-            cmps = [c_ for c_ in ast.walk(n_.test) if isinstance(c_, ast.Compare) and any(isinstance(x, ast.Name) and x.id in names for x in ast.walk(c_))]
-            ne = all(len(c_.ops) == 1 and isinstance(c_.ops[0], ast.NotEq) and eq_const(c_) is not None and eq_const(c_)[1] == 0 for c_ in cmps)
-            obs.append(Ob("E1", clause, r, n_, ne and bool(cmps),
-                          "each tilt factor is tested with `!= 0` (negative tilts are tilts too): %s" % [ast.unparse(c_) for c_ in cmps],
-                          slot="tilt-decision-operator", positive=bool(cmps) and all(len(c_.ops) == 1 for c_ in cmps)))
-            # ... and the three tests are combined so that ANY non-zero tilt selects the triclinic matrix (truth table over the 8 zero/non-zero patterns)
-            import itertools as _it
+    # the triclinic decision: the tilted matrix is built exactly when ANY of the three tilt factors is non-zero, whatever their signs.  Decided by
+    # evaluating the path condition of the statement that builds the tilted matrix over the sign domain {-, 0, +}^3 (27 combinations; the factors are
+    # touched only through comparisons with constants, so three representatives per factor decide every test), with the box lengths positive.
+    if names and mat:
+        import itertools as _it
+        tri_call = None
+        for n in r.own_nodes():
+            if isinstance(n, ast.Call) and call_name(n) == "array" and n.args and isinstance(n.args[0], ast.List) and len(n.args[0].elts) == 3 \
+                    and any(isinstance(x, ast.Name) and x.id in names for x in ast.walk(n)):
+                tri_call = n
+        diag_names_ = {mat[i][i] for i in range(3)}
 
-            def _tv(e, nz):
-                if isinstance(e, ast.BoolOp):
-                    vals = [_tv(v, nz) for v in e.values]
-                    return all(vals) if isinstance(e.op, ast.And) else any(vals)
-                if isinstance(e, ast.UnaryOp) and isinstance(e.op, ast.Not):
-                    return not _tv(e.operand, nz)
-                if isinstance(e, ast.Compare) and len(e.ops) == 1:
-                    ec = eq_const(e)
-                    if ec is not None and isinstance(ec[0], ast.Name) and ec[0].id in names and ec[1] == 0:
-                        return (not nz[ec[0].id]) if ec[2] else nz[ec[0].id]
-                if isinstance(e, ast.Call) and call_name(e) in ("any", "all") and e.args and isinstance(e.args[0], (ast.List, ast.Tuple)):
-                    vals = [_tv(v, nz) for v in e.args[0].elts]
-                    return any(vals) if call_name(e) == "any" else all(vals)
-                raise ValueError(ast.unparse(e))
+        class _Und(Exception):
+            pass
+
+        def _ev(e, env, depth=0):
+            if depth > 6:
+                raise _Und("depth")
+            if isinstance(e, ast.Constant) and isinstance(e.value, (int, float, bool)):
+                return e.value
+            if isinstance(e, ast.Name):
+                if e.id in env:
+                    return env[e.id]
+                if e.id in diag_names_:
+                    return 1.0
+                if r.stmt_of(e) is not None:
+                    uv = r.rd.unique_value(e)
+                    if uv is not None:
+                        return _ev(uv[1], env, depth + 1)
+                raise _Und(e.id)
+            if isinstance(e, ast.UnaryOp):
+                v = _ev(e.operand, env, depth)
+                if isinstance(e.op, ast.Not):
+                    return not v
+                if isinstance(e.op, ast.USub):
+                    return -v
+                raise _Und("unary")
+            if isinstance(e, ast.BoolOp):
+                vals = [_ev(v, env, depth) for v in e.values]
+                return all(vals) if isinstance(e.op, ast.And) else any(vals)
+            if isinstance(e, ast.Compare):
+                left = _ev(e.left, env, depth)
+                for op, c in zip(e.ops, e.comparators):
+                    right = _ev(c, env, depth)
+                    fn_ = {ast.Eq: lambda x, y: x == y, ast.NotEq: lambda x, y: x != y, ast.Lt: lambda x, y: x < y, ast.LtE: lambda x, y: x <= y,
+                           ast.Gt: lambda x, y: x > y, ast.GtE: lambda x, y: x >= y}.get(type(op))
+                    if fn_ is None:
+                        raise _Und("operator")
+                    if not fn_(left, right):
+                        return False
+                    left = right
+                return True
+            if isinstance(e, ast.Call) and call_name(e) in ("abs", "fabs", "float") and len(e.args) == 1:
+                v = _ev(e.args[0], env, depth)
+                return abs(v) if call_name(e) != "float" else float(v)
+            if isinstance(e, ast.Call) and call_name(e) in ("any", "all") and len(e.args) == 1 and isinstance(e.args[0], (ast.List, ast.Tuple)):
+                vals = [_ev(v, env, depth) for v in e.args[0].elts]
+                return any(vals) if call_name(e) == "any" else all(vals)
+            raise _Und(type(e).__name__)
+        if tri_call is not None:
+            tri_stmt = r.stmt_of(tri_call)
+            gs_ = norm_guards(r, tri_stmt)
+            gs_ = [(t, pol) for t, pol, k in gs_ if any(isinstance(x, ast.Name) and (x.id in names or x.id in diag_names_ or True) for x in ast.walk(t))
+                   and "xy xz yz" not in ast.unparse(t)]
+            # only the guards inside the cell-construction part: those that mention a tilt factor, a box length, or a local computed from them
+            def _relevant(t):
+                for x in ast.walk(t):
+                    if isinstance(x, ast.Name):
+                        if x.id in names or x.id in diag_names_:
+                            return True
+                        if r.stmt_of(x) is not None:
+                            uv = r.rd.unique_value(x)
+                            if uv is not None and any(isinstance(y, ast.Name) and (y.id in names or y.id in diag_names_) for y in ast.walk(uv[1])):
+                                return True
+                return False
+            gs_ = [(t, pol) for t, pol in gs_ if _relevant(t)]
+            wrong, und = [], None
+            examined = {x.id for t, pol in gs_ for x in ast.walk(expand(r, t)) if isinstance(x, ast.Name) and x.id in names}
             try:
-                wrong = []
-                # which branch builds the tilted matrix (the one that mentions the tilt names)?
-                tri_in_body = any(isinstance(x, ast.Name) and x.id in names for b_ in n_.body for x in ast.walk(b_))
-                tri_in_else = any(isinstance(x, ast.Name) and x.id in names for b_ in n_.orelse for x in ast.walk(b_))
-                if tri_in_body == tri_in_else:
-                    raise ValueError("cannot tell which branch is the triclinic one")
-                for bits in _it.product((False, True), repeat=3):
-                    nzm = dict(zip(names, bits))
-                    if (_tv(n_.test, nzm) == tri_in_body) != any(bits):
-                        wrong.append(nzm)
-                obs.append(Ob("E1", clause, r, n_, not wrong,
-                              "triclinic decision over the 8 zero/non-zero patterns of (%s): %s" % (", ".join(names), "tilted exactly when any factor is non-zero" if not wrong else
-                                                                                                 "WRONG for %d patterns, e.g. %s is read back as %s" % (len(wrong), {k: ("non-zero" if v else "0") for k, v in wrong[0].items()},
-                                                                                                                                                      "orthorhombic (the tilt is dropped)" if any(wrong[0].values()) else "triclinic")),
-                              slot="tilt-decision-table", positive=True))
-            except ValueError:
-                pass
+                if not gs_:
+                    raise _Und("the tilted matrix is built unconditionally")
+                for vals in _it.product((-2.5, 0.0, 1.5), repeat=3):
+                    env = dict(zip(names, vals))
+                    taken = all(bool(_ev(t, env)) == pol for t, pol in gs_)
+                    if taken != any(v != 0 for v in vals):
+                        wrong.append(env)
+            except _Und as e_:
+                und = str(e_)
+            if und is not None:
+                obs.append(Ob("E1", clause, r, tri_stmt, False, "triclinic decision: the condition under which the tilted matrix is built is outside the table language (%s)" % und,
+                              slot="tilt-decision-table", undecided=True))
+            else:
+                ex = wrong[0] if wrong else None
+                obs.append(Ob("E1", clause, r, tri_stmt, not wrong,
+                              "triclinic decision over the 27 sign patterns of (%s): %s" % (", ".join(names), "the tilted matrix is built exactly when any factor is non-zero" if not wrong else
+                                                                                         "WRONG for %d patterns, e.g. %s is read back as %s" % (len(wrong), ex, "orthorhombic (the tilt is dropped)" if any(v != 0 for v in ex.values()) else "triclinic")),
+                              slot="tilt-decision-table", positive="robust"))
+                obs.append(Ob("E1", clause, r, tri_stmt, examined == set(names) or bool(wrong),
+                              "the decision examines all three tilt factors %s (examined: %s)" % (names, sorted(examined)), slot="tilt-decision", positive=examined < set(names)))
     # lo/hi: writer zip([0,0,0], np.diag(cell)); reader hi - lo
     def _float_sub(e):
         return e.args[0] if isinstance(e, ast.Call) and call_name(e) == "float" and e.args and isinstance(e.args[0], ast.Subscript) else None
